@@ -238,9 +238,10 @@ def ref_bins(cp, tvals, auto_bin_max=64):
             elif k == "arr":
                 regular += [set(x) for x in partition(values(b["items"]) - excl, b.get("n"))]
             elif k == "wild":
-                regular.append({v for v in tvals if wild_match(v, b["pats"])})
+                # (a wildcard bin stays in place even when every matching value is excluded)
+                regular.append({v for v in tvals if wild_match(v, b["pats"])} - excl)
             elif k == "wildarr":
-                regular += [set(x) for x in partition({v for v in tvals if wild_match(v, b["pats"])}, b.get("n"))]
+                regular += [set(x) for x in partition({v for v in tvals if wild_match(v, b["pats"])} - excl, b.get("n"))]
     ign = [values(b["items"]) for b in (cp.get("ignore") or [])]
     ill = [values(b["items"]) for b in (cp.get("illegal") or [])]
     return regular, ign, ill
